@@ -15,7 +15,6 @@ RULES = RuleSet("C07", "§3 C07",
                              "conditions other than is_opaque / should_be_traced_unconditionally / matches on the type kind are treated as "
                              "'may hold' when deciding whether an edge is emitted (e.g. the stdint early return in Type::trace)"],
                 not_decided=["identity of the bindings generated for two declaration orders (a relation between two runs)",
-                             "the length-comparison change detection of UsedTemplateParameters::constrain (arithmetic on run-time sizes)",
                              "keys computed by resolving through aliases in UsedTemplateParameters::constrain_instantiation*"])
 
 MF = "ir::analysis::MonotoneFramework"
@@ -943,3 +942,109 @@ def r7_9(rep):
                 rep.check(same, key, "handled with the other name-forwarding kinds" if same else
                           "`TypeKind::%s` is handled differently from `TypeKind::%s` although both only rename a type" % (k, sorted(where)[0]), b.loc(m))
     rep.need(n >= 18, "matches over the type kind in ir::analysis that name Alias / TemplateAlias / ResolvedTypeRef")
+
+
+# =====================================================================================================
+# R7.10  the take / grow / put-back protocol of UsedTemplateParameters::constrain
+# =====================================================================================================
+def _only_grown(prog, b, lid, depth=2):
+    """(ok, why): every use of local `lid` in body b is a read, a grower call, or a `&mut` hand-over to a crate function whose
+    parameter is itself only grown."""
+    for n in b.nodes:
+        if n["k"] == "Local" and n["id"] == lid:
+            par = b.parent[n["_i"]]
+            while par is not None and par["k"] in ("AddrOf", "Unary"):
+                hold = par
+                par = b.parent[par["_i"]]
+            if par is None:
+                continue
+            if par["k"] == "MCall" and strip(par["recv"]) is n:
+                nm = par["name"]
+                if nm in GROWERS or nm in ("len", "is_empty", "iter", "contains", "get", "clone", "fmt"):
+                    continue
+                if nm in SHRINKERS:
+                    return False, "`%s` on the taken set at %s" % (nm, b.loc(par))
+                continue
+            if par["k"] in ("Call", "MCall"):
+                cal = par.get("resolved") or par.get("callee") or ""
+                cb = prog.bodies.get(cal)
+                if cb is None:
+                    continue        # std / formatting machinery
+                args = ([par["recv"]] if par["k"] == "MCall" else []) + list(par.get("args") or [])
+                idx = next((i for i, a in enumerate(args) if any(x is n for x in b.walk(a))), None)
+                if idx is None or idx >= len(cb.params):
+                    continue
+                is_mut = "&mut" in (b.ty(args[idx]) or "")
+                if not is_mut:
+                    continue
+                if depth <= 0:
+                    return False, "handed to %s (not followed further)" % cal
+                pid = cb.params[idx].get("id")
+                ok, why = _only_grown(prog, cb, pid, depth - 1)
+                if not ok:
+                    return False, "in %s: %s" % (cal.split("::")[-1], why)
+            if par["k"] in ("Assign",) and strip(par["l"]) is n:
+                return False, "the taken set is overwritten at %s" % b.loc(par)
+    return True, ""
+
+
+@RULES.rule("R7.10", "UsedTemplateParameters::constrain: the set is taken, only grown, put back, and `Changed` means it grew", floor=6)
+def r7_10(rep):
+    """This analysis detects change by comparing the size of the item's set before and after (the other analyses report each insert).
+    That is only right if nothing shrinks or replaces the set in between, if both sizes are read outside the mutation window, if the
+    set is put back on every path, and if `Same` is answered exactly for equal sizes."""
+    prog = rep.prog
+    a = next((x for x in analyses(rep) if x.name == "UsedTemplateParameters"), None)
+    rep.need(a, "the UsedTemplateParameters analysis")
+    b = a.methods["constrain"]
+    takes = [st for st in b.nodes if st["k"] == "Let" and st.get("init") is not None and strip(st["init"]).get("k") == "MCall" and
+             "take" in (strip(st["init"]).get("name") or "") and st["pat"].get("k") == "Bind"]
+    rep.need(takes, "`let mut used_by_this_id = self.take_..(id)`")
+    S = takes[0]["pat"]["id"]
+    lens = [st for st in b.nodes if st["k"] == "Let" and st.get("init") is not None and strip(st["init"]).get("k") == "MCall" and
+            strip(st["init"])["name"] == "len" and strip(strip(st["init"])["recv"]).get("id") == S]
+    rep.check(len(lens) == 2, "two-size-readings", "the size of the set is read twice (found %d)" % len(lens), b.loc(takes[0]))
+    if len(lens) != 2:
+        return
+    first, second = sorted(lens, key=lambda x: x["_i"])
+    muts = []
+    for n in b.nodes:
+        if n["k"] == "Local" and n["id"] == S:
+            par = b.parent[n["_i"]]
+            while par is not None and par["k"] in ("AddrOf", "Unary"):
+                par = b.parent[par["_i"]]
+            if par is not None and par["k"] in ("Call", "MCall") and not is_log(b, par):
+                nm = par.get("name") or ""
+                if nm in ("len", "is_empty", "fmt"):
+                    continue
+                if par["k"] == "MCall" and strip(par["recv"]) is n and nm in ("insert",) and "used" in b.canon(par, 3) and False:
+                    continue
+                muts.append(par)
+    window = [m for m in muts if not (first["_i"] < m["_i"] < second["_i"])]
+    putback = [c for c in b.calls(lambda x: x["k"] == "MCall" and x["name"] == "insert") if
+               (root_field(c["recv"]) or {}).get("f") in a.state and any(x["k"] == "Local" and x["id"] == S for x in b.walk(c["args"][-1]))]
+    window = [m for m in window if not any(m is p or any(x is m for x in b.walk(p)) for p in putback)]
+    rep.check(not window, "sizes-bracket-the-mutations", "every mutation of the set lies between the two size readings" if not window else
+              "the set is changed at %s, outside the window between the two `len()` readings: growth there is never reported" % b.loc(window[0]),
+              b.loc(window[0]) if window else b.loc(first))
+    ok, why = _only_grown(prog, b, S)
+    rep.check(ok, "only-grown", "between the readings the set only receives inserts / extends (helpers followed)" if ok else
+              "the set can shrink or be replaced (%s): equal sizes then no longer mean 'unchanged'" % why, b.loc(takes[0]))
+    pb_guards = [g3 for g3 in b.guards(putback[0], nested=True) if not (g3[1] == "cond" and in_macro(b, g3[2], ASSERTS | LOG))] if putback else []
+    rep.check(len(putback) == 1 and not pb_guards and putback[0]["_i"] > second["_i"], "put-back",
+              "the set is put back into `used` once, unconditionally, after the second reading", b.loc(putback[0]) if putback else b.loc(b.root))
+    rets = [n for n in b.walk() if n["k"] == "Ret" and not any(x["k"] == "Closure" for x in b.ancestors(n))]
+    rep.check(not rets, "no-early-return", "no `return` between taking the set and putting it back", b.loc(rets[0]) if rets else b.loc(b.root))
+    # the answer
+    tail = strip(b.root.get("tail") or {})
+    good = False
+    if tail.get("k") == "If" and "else" in tail:
+        c = strip(tail["cond"])
+        ids = {strip(c.get("l", {})).get("id"), strip(c.get("r", {})).get("id")} if c.get("k") == "Binary" else set()
+        both = ids == {first["pat"].get("id"), second["pat"].get("id")}
+        t, e = b.canon(tail["then"], 3), b.canon(tail["else"], 3)
+        if both and c.get("op") == "==":
+            good = t.endswith("Same") and e.endswith("Changed")
+        elif both and c.get("op") == "!=":
+            good = t.endswith("Changed") and e.endswith("Same")
+    rep.check(good, "changed-iff-grew", "`Same` exactly when the two sizes are equal", b.loc(tail) if tail else b.loc(b.root))
